@@ -392,6 +392,28 @@ impl State<'_> {
         forbidden: &[String],
         out: &mut Vec<Tok>,
     ) -> Result<bool, Stop> {
+        // A replacement may end in line-break markers that came in with an argument: the name in
+        // front of them is then separated from a following "(" by a line break - C invokes it,
+        // RSSL does not
+        if out.last().is_some_and(is_break) {
+            let name = out.iter().rev().find(|t| !is_break(t));
+            let mut j = *i;
+            while toks.get(j).is_some_and(is_break) {
+                j += 1;
+            }
+            if let Some(Tok { atom: Atom::Id(n), painted, .. }) = name
+                && self.is_function_like(n)
+                && !*painted
+                && n != just_expanded
+                && !disabled.contains(n)
+                && toks.get(j).map(|t| &t.atom) == Some(&Atom::Punct('('))
+            {
+                return Err(Stop::Unmodelled(
+                    "line break between a function-like macro name and (".into(),
+                ));
+            }
+            return Ok(false);
+        }
         let Some(Tok {
             atom: Atom::Id(last),
             ..
